@@ -239,7 +239,10 @@ class HistoryFamily:
                 return True
             return Expect(ok, so)
         spec = [parse_rows(x) for x in so.split(' || ')]
-        return Expect(lambda io: self.multi_ok(case, io, spec, exact=False, configs=('off', 'on')), so)
+        # operator OBJECTS shared between queries carry their result caches into another context (another yield_when_false): that
+        # combination is outside what the caches are designed for, such pools are compared with caching disabled only
+        configs = ('off',) if case.get('share_conds') else ('off', 'on')
+        return Expect(lambda io: self.multi_ok(case, io, spec, exact=False, configs=configs), so)
 
     def multi_ok(self, case, io, answers, exact, configs):
         """answers[i] = the rows query i returns on untouched data (model: in the evaluator's order; specification: any order)"""
